@@ -47,12 +47,21 @@ Same    == {[c1 |-> <<>>, c2 |-> <<Link(<<"lnk">>, t), File(p)>>, planted |-> <<
 FileTargets == {<<".git", "decoy">>, <<"..", "outside", "secret">>}
 PlantedFinal == {[c1 |-> <<>>, c2 |-> <<e, File(<<"a">>)>>, planted |-> <<[at |-> <<"lnk">>, to |-> t]>>] :
                     e \in {File(<<"lnk">>), Link(<<"lnk">>, <<"a">>)}, t \in Targets \cup FileTargets}
-Shapes  == Single \cup SymEnt \cup Planted \cup Swap \cup Same \cup PlantedFinal
+\* a DANGLING planted link in the final position: its target does not exist when the operation starts (so a
+\* Stat of the entry says "not there" although the link is), pointing into .git and outside the worktree
+DanglingTargets == {<<".git", "hooks", "post-checkout">>, <<"..", "outside", "new-file">>, <<".git", "new-file">>}
+DanglingAt == {<<"lnk">>, <<"b", "lnk">>}
+DanglingTo(p) == {IF Len(p) = 1 THEN d ELSE <<"..">> \o d : d \in DanglingTargets}
+DanglingFinal == UNION {{[c1 |-> <<>>, c2 |-> <<File(p), File(<<"a">>)>>, planted |-> <<[at |-> p, to |-> t]>>] : t \in DanglingTo(p)} :
+                          p \in DanglingAt}
+Shapes  == Single \cup SymEnt \cup Planted \cup Swap \cup Same \cup PlantedFinal \cup DanglingFinal
 Scenarios == {[c1 |-> s.c1, c2 |-> s.c2, planted |-> s.planted, ntfs |-> n, hfs |-> h] : s \in Shapes, n \in BOOLEAN, h \in BOOLEAN}
 
 \* scenario key for finding signatures (first that applies)
 AllComps(s) == UNION {{e.path[i] : i \in 1..Len(e.path)} : e \in {s.c2[j] : j \in 1..Len(s.c2)} \cup {s.c1[j] : j \in 1..Len(s.c1)}}
-Key(s) == IF s.planted # <<>> /\ s.c2[1].path = <<"lnk">> THEN "planted-symlink-final"
+Key(s) == IF s.planted # <<>> /\ s.c2[1].path = s.planted[1].at /\ s.planted[1].to[Len(s.planted[1].to)] \in {"post-checkout", "new-file"}
+             THEN "planted-dangling-final"
+          ELSE IF s.planted # <<>> /\ s.c2[1].path = <<"lnk">> THEN "planted-symlink-final"
           ELSE IF s.planted # <<>> THEN "planted-symlink"
           ELSE IF s.c1 # <<>> THEN "symlink-then-dir-swap"
           ELSE IF \E j \in 1..Len(s.c2) : s.c2[j].kind = "link" /\ Len(s.c2) = 2 /\ s.c2[2].path # <<"a">> THEN "symlink-and-child-in-one-tree"
